@@ -7,7 +7,7 @@
      an error"; outcome 0 = value, 1 = error value, 2 = panic, 3 = process-fatal
      error, 4 = hang (watchdog).  check = outcome <= 1.
    * the other constructors carry the INPUT of a component that has a Gallina
-     model (Css/Urls.v, PageSel.v, HtmlAttr.v, SvgAttr.v) and what the
+     model (Css/Urls.v, PageSel.v, HtmlAttr.v, SvgAttr.v, ColorMq.v, W3cDate.v) and what the
      implementation did: `oc` 0 = value, 1 = error / nil / invalid, 2 = panic,
      plus the returned value.  The model is run on the same input; its own
      outcome (Ok vs Panic) and value are compared.
@@ -15,7 +15,7 @@
    model returns, or the reverse), 2 skipped, 3 returned values differ,
    4 tested-only component crashed / hung, 5 implementation and model both panic
    (a genuine defect the model reproduces). *)
-From Verif Require Export Base.GoSem Base.GoStrings Css.Urls Css.PageSel Css.HtmlAttr Css.SvgAttr Css.ColorMq.
+From Verif Require Export Base.GoSem Base.GoStrings Css.Urls Css.PageSel Css.HtmlAttr Css.SvgAttr Css.ColorMq Css.W3cDate.
 From Coq Require Import List ZArith NArith Bool.
 Import ListNotations.
 
@@ -37,7 +37,10 @@ Inductive case :=
 | CPainter (s : list N) (oc : N) (kind : N)
 | CFontWeight (s : list N) (oc : N) (v : Z)
 | CColor (t : ptok) (oc : N) (ctype : N)          (* Color.Type: 0 invalid, 1 currentColor, 2 rgba *)
-| CMedia (toks : list ptok) (oc : N) (media : list (list N)).
+| CMedia (toks : list ptok) (oc : N) (media : list (list N))
+(* parseW3cDate: whether w3CDateRe matched and its eight named groups (year month day hour minute second tzHour
+   tzMinute); outcome of parseW3cDate; the instant (Unix seconds) and the zone offset (seconds) of the returned time *)
+| CW3cDate (s : list N) (oc : N) (matched : bool) (groups : list (list N)) (unix offset : Z).
 
 (* model observable: (outcome constructor, value digest) -- a uniform shape so
    that replays can print it: oc 0/1/2 as above, 9 = out of fuel *)
@@ -48,7 +51,8 @@ Inductive obs :=
 | OInts (oc : N) (l : list Z)
 | OPar (oc : N) (x y : list N) (none slice : bool)
 | OOnly (oc : N)
-| OMedia (oc : N) (media : list (list N)).
+| OMedia (oc : N) (media : list (list N))
+| ODate (oc : N) (matched : bool) (groups : list (list N)) (unix offset : Z).
 
 Definition oc_of {A} (r : res A) : N :=
   match r with Ok _ => 0%N | Panic _ => 2%N | OutOfFuel => 9%N end.
@@ -117,6 +121,14 @@ Definition model_out (c : case) : obs :=
       end
   | CMedia toks _ _ =>
       opt_obs (parse_media_query toks) (fun m => OMedia 0%N m) (OMedia 1%N []) (fun k => OMedia k [])
+  | CW3cDate s _ _ _ _ _ =>
+      let '(matched, gs) :=
+        match match_w3c false s with
+        | Some g => (true, [g_year g; g_month g; g_day g; g_hour g; g_minute g; g_second g; g_tzh g; g_tzm g])
+        | None => (false, [[]; []; []; []; []; []; []; []])
+        end in
+      opt_obs (parse_w3c_date false s) (fun t => ODate 0%N matched gs (unix_seconds t) (d_offset t))
+        (ODate 1%N matched gs 0%Z 0%Z) (fun k => ODate k matched gs 0%Z 0%Z)
   end.
 
 (* ---- equalities *)
@@ -192,6 +204,9 @@ Definition check (c : case) : N :=
                     | _ => zlist_eqb l [Z.of_N ctype]
                     end)
   | CMedia _ oc media, OMedia m media' => verdict m oc (negb (N.eqb oc 0) || strs_eqb media media')
+  | CW3cDate _ oc matched groups unix offset, ODate m matched' groups' unix' offset' =>
+      verdict m oc (Bool.eqb matched matched' && strs_eqb groups groups' &&
+                    (negb (N.eqb oc 0) || (Z.eqb unix unix' && Z.eqb offset offset')))
   | _, _ => 1%N
   end.
 
